@@ -22,6 +22,10 @@ database), operations PAIR_OPS: add / delete / expunge of either object, expire 
 child to / from the parent's collection, flush / commit / rollback / close / expire_all.  The contract below is evaluated for BOTH objects
 after every operation, whichever object the operation named.
 
+Primary-key changes.  Third family of histories: one object (constructed, or loaded) and the operations PK_OPS — add / expunge / delete, a change of
+the object's primary key `pk(o1)` (-> at the next flush `Session._register_persistent` switches the identity key and the transaction records the
+switch; a rollback puts the recorded key back in `SessionTransaction._restore_snapshot`), flush / commit / rollback, SAVEPOINT begin and rollback.
+
 Contract, `ensures` of every operation, per tracked object o (s0 = state before the call, s1 = state after):
   P  exactly one of inspect(o).transient / pending / persistent / deleted / detached is true, before and after
   T  the events e1..en fired for o during the call form a PATH: src(e1) == s0, dst(ei) == src(ei+1), dst(en) == s1; with no event
@@ -47,6 +51,7 @@ CASCADES = ["save-update, merge", "all", "all, delete-orphan"]
 PAIR_STARTS = ["transient", "parent persistent", "persistent"]
 PAIR_OPS = [f"{o}(o{i})" for i in (1, 2) for o in ("add", "delete", "expunge")] + ["expire(o1)", "refresh(o1)", "merge(o1)", "append(o2)", "remove(o2)"] + \
            ["flush", "commit", "rollback", "close", "expire_all"]
+PK_OPS = ["add(o1)", "expunge(o1)", "delete(o1)", "pk(o1)", "modify(o1)", "flush", "commit", "rollback", "begin_nested", "rollback_nested"]
 _G = dict(engine=None, installed=False, log=[], pair_engine=None)
 _PAIRS = None
 
@@ -107,6 +112,12 @@ def do(name, s, objs, P):
         make_transient_to_detached(o)
     elif op == "modify":
         o.x = (o.x or 0) + 1
+    elif op == "pk":
+        o.id = (o.id or 0) + 10
+    elif op == "rollback_nested":
+        t = s.get_nested_transaction()
+        if t is not None:
+            t.rollback()
     elif op == "refresh":
         s.refresh(o)
     elif op == "expire":
@@ -259,8 +270,8 @@ def _worker(job):
     nobj, start, cascade = job["nobj"], job["start"], job.get("cascade")
     if cascade is not None and _G["pair_engine"] is None:
         _G["pair_engine"] = H.new_engine(pair_mappings()["Base"].metadata)
-    ops = PAIR_OPS if cascade is not None else (OPS1 if nobj == 1 else OPS2)
-    res = dict(evaluations=0, steps=0, nontrivial=0, failures=[], samples=[], skipped_prefix_already_broken=0, transitions=set(), pair_evaluations=0,
+    ops = PAIR_OPS if cascade is not None else PK_OPS if job.get("family") == "pk" else (OPS1 if nobj == 1 else OPS2)
+    res = dict(pk_evaluations=0, evaluations=0, steps=0, nontrivial=0, failures=[], samples=[], skipped_prefix_already_broken=0, transitions=set(), pair_evaluations=0,
                pair_transitions=set(), cascaded_transitions=set(), pair_samples=[])
     for idxs in H.job_sequences(len(ops), job):
         names = [ops[k] for k in idxs]
@@ -276,8 +287,10 @@ def _worker(job):
                 res["cascaded_transitions"] |= {(cascade,) + t for t in r["cascaded"]}
         if cascade is not None:
             res["pair_evaluations"] += 1
+        if job.get("family") == "pk":
+            res["pk_evaluations"] += 1
         skey = "samples" if cascade is None else "pair_samples"
-        extra = {} if cascade is None else dict(pair_cascade=cascade)          # (key sorts after `ops`: known-finding patterns on the leading keys stay valid)
+        extra = dict(pk_family=True) if job.get("family") == "pk" else {} if cascade is None else dict(pair_cascade=cascade)          # (key sorts after `ops`: known-finding patterns on the leading keys stay valid)
         if r["fail"]:
             if r["failed_at"] == len(names) - 1:
                 res["failures"].append(dict(r["fail"], ops=names, objects=nobj, start=start, last_op=names[-1], **extra))
@@ -293,12 +306,19 @@ def scope_for(tier):
     return ((1, 2, 3, 4), (1, 2, 3), (1, 2, 3)) if tier == "quick" else ((1, 2, 3, 4, 5), (1, 2, 3, 4), (1, 2, 3, 4))
 
 
+def pk_scope_for(tier):
+    return (1, 2, 3, 4, 5) if tier == "quick" else (1, 2, 3, 4, 5, 6)
+
+
 def bounded(run, tier, seed):
     t0 = time.time()
     l1, l2, l3 = scope_for(tier)
     joblist = []
     for start in ("transient", "persistent"):
         joblist += H.jobs(len(OPS1), l1, min_jobs=100, nobj=1, start=start) + H.jobs(len(OPS2), l2, min_jobs=100, nobj=2, start=start)
+    lpk = pk_scope_for(tier)
+    for start in ("transient", "persistent"):
+        joblist += H.jobs(len(PK_OPS), lpk, min_jobs=100, nobj=1, start=start, family="pk")
     for cascade in CASCADES:
         for start in PAIR_STARTS:
             joblist += H.jobs(len(PAIR_OPS), l3, min_jobs=16, nobj=2, start=start, cascade=cascade)
@@ -320,7 +340,7 @@ def bounded(run, tier, seed):
         if cls in seen or len(seen) >= 8:
             continue
         seen.add(cls)
-        world = f"{d['objects']}obj" if "pair_cascade" not in d else "pair-" + d["pair_cascade"].replace(", ", "+")
+        world = "pk" if d.get("pk_family") else f"{d['objects']}obj" if "pair_cascade" not in d else "pair-" + d["pair_cascade"].replace(", ", "+")
         run.violation(f"lifecycle-{world}-{d['start']}-" + "-".join(d["ops"]),
                       dict(function=FN + "/" + d["last_op"].split("(")[0], input=d, expected="events form a path of the documented automaton from the state before to the state after",
                            actual=d["broken"], reason="bounded run-time contract check (C35_bounded)"))
@@ -335,14 +355,15 @@ def bounded(run, tier, seed):
               f"{list(l1)} over {len(OPS1)} operations on one object {OPS1} and ALL histories of length in {list(l2)} over {len(OPS2)} operations on two objects; "
               f"(b) a parent o1 and a child o2 related by a one-to-many with back reference, for each cascade configuration in {CASCADES} x each start in {PAIR_STARTS} "
               f"(both constructed / parent loaded, child constructed / both loaded, linked and the collection loaded) ALL histories of length in {list(l3)} over the {len(PAIR_OPS)} operations "
-              f"{PAIR_OPS} (append / remove = o1.kids.append(o2) / .remove(o2)); clauses P and T evaluated for every object after every operation, including the object the operation did not name",
+              f"{PAIR_OPS} (append / remove = o1.kids.append(o2) / .remove(o2)); (c) one object, constructed or loaded, ALL histories of length in {list(lpk)} over the {len(PK_OPS)} operations {PK_OPS} "
+              f"(pk = change of the object's primary key, rollback_nested = rollback of the innermost SAVEPOINT); clauses P and T evaluated for every object after every operation, including the object the operation did not name",
         evaluations=agg["evaluations"], distinct_nontrivial=len(trans) + len(ptrans),
         rule="histories are enumerated exhaustively; distinct_nontrivial counts the DISTINCT observed (operation, state before, state after, events fired) tuples — for the pair family "
              "(cascade configuration, operation, object, state before, state after, events fired) — with a state change or at least one event: the distinct edges / paths of the automaton "
              "actually exercised and judged (identity steps without events are trivial)",
         samples=samples, exhaustive=True, label="bounded (not proof)",
         steps=agg["steps"], histories_with_a_transition=agg["nontrivial"], contract_failures=len(failures),
-        pair_histories=agg["pair_evaluations"], distinct_pair_transitions=len(ptrans),
+        primary_key_change_histories=agg["pk_evaluations"], pair_histories=agg["pair_evaluations"], distinct_pair_transitions=len(ptrans),
         distinct_transitions_by_cascade=len(ctrans),
         transitions_by_cascade_per_configuration={c: len([t for t in ctrans if t[0] == c]) for c in CASCADES},
         skipped_prefix_already_broken=agg["skipped_prefix_already_broken"], wall_s=round(time.time() - t0, 1))
